@@ -233,3 +233,177 @@ fn q_direct_oid_lenstub() {
     core::mem::forget(r);
     core::mem::forget(value);
 }
+
+use crate::socket::snmpsocket::SnmpSocket;
+use crate::socket::SnmpV2cClientSocket;
+#[kani::proof]
+#[kani::unwind(12)]
+#[kani::stub(alloc::fmt::format, stub_format)]
+fn s1_new_only() {
+    let s = SnmpV2cClientSocket::new("127.0.0.1:161".to_string(), "pub".to_string(), 0, 0, 0, 1_000_000_000);
+    assert!(s.is_ok());
+    core::mem::forget(s);
+}
+#[kani::proof]
+#[kani::unwind(12)]
+#[kani::stub(alloc::fmt::format, stub_format)]
+fn s2_push_pdu_local() {
+    let mut s = SnmpV2cClientSocket::new("127.0.0.1:161".to_string(), "pub".to_string(), 0, 0, 0, 1_000_000_000).unwrap();
+    let x: u8 = kani::any();
+    let c = [43u8, x & 0x7f, 0];
+    let rid: i64 = kani::any();
+    kani::assume(rid >= 0 && rid <= 0x7fff_ffff);
+    let pdu = SnmpPdu::GetRequest(crate::snmp::get::SnmpGet { request_id: rid, vars: vec![oid(&c)] });
+    let mut buf = crate::buf::Buffer::default();
+    let r = s.push_pdu(pdu, &mut buf);
+    assert!(r.is_ok());
+    let d = buf.data();
+    assert!(d[0] == 0x30);
+    core::mem::forget(s);
+    core::mem::forget(buf);
+}
+#[kani::proof]
+#[kani::unwind(12)]
+#[kani::stub(alloc::fmt::format, stub_format)]
+fn s3_pool_only() {
+    let mut h = crate::buf::get_buffer_pool().acquire();
+    let b = h.as_mut();
+    b.push_u8(1).unwrap();
+    assert!(b.len() == 1);
+    core::mem::forget(h);
+}
+#[kani::proof]
+#[kani::unwind(12)]
+#[kani::stub(alloc::fmt::format, stub_format)]
+fn s4_push_pdu_rid4() {
+    let mut s = SnmpV2cClientSocket::new("127.0.0.1:161".to_string(), "pub".to_string(), 0, 0, 0, 1_000_000_000).unwrap();
+    let x: u8 = kani::any();
+    let c = [43u8, x & 0x7f, 0];
+    let rid: i64 = kani::any();
+    kani::assume(rid >= 0x0080_0000 && rid <= 0x7fff_ffff);
+    let pdu = SnmpPdu::GetRequest(crate::snmp::get::SnmpGet { request_id: rid, vars: vec![oid(&c)] });
+    let mut buf = crate::buf::Buffer::default();
+    let r = s.push_pdu(pdu, &mut buf);
+    assert!(r.is_ok());
+    let d = buf.data();
+    assert!(d[0] == 0x30);
+    core::mem::forget(s);
+    core::mem::forget(buf);
+}
+#[kani::proof]
+#[kani::unwind(12)]
+#[kani::stub(alloc::fmt::format, stub_format)]
+fn s5_push_pdu_concrete_rid() {
+    let mut s = SnmpV2cClientSocket::new("127.0.0.1:161".to_string(), "pub".to_string(), 0, 0, 0, 1_000_000_000).unwrap();
+    let x: u8 = kani::any();
+    let c = [43u8, x & 0x7f, 0];
+    let rid: i64 = 0x123456;
+    let pdu = SnmpPdu::GetRequest(crate::snmp::get::SnmpGet { request_id: rid, vars: vec![oid(&c)] });
+    let mut buf = crate::buf::Buffer::default();
+    let r = s.push_pdu(pdu, &mut buf);
+    assert!(r.is_ok());
+    let d = buf.data();
+    assert!(d[0] == 0x30);
+    core::mem::forget(s);
+    core::mem::forget(buf);
+}
+use crate::snmp::op::OpGet as OpGet2;
+#[kani::proof]
+#[kani::unwind(12)]
+#[kani::stub(alloc::fmt::format, stub_format)]
+#[kani::stub(<u32 as core::str::FromStr>::from_str, stub_u32_from_str_script)]
+fn s6_from_python_push_local() {
+    let mut s = SnmpV2cClientSocket::new("127.0.0.1:161".to_string(), "pub".to_string(), 0, 0, 0, 1_000_000_000).unwrap();
+    let x: u8 = kani::any();
+    script_oid_1_3_x(x);
+    let pdu = <OpGet2 as PyOp<pyo3::pybacked::PyBackedStr>>::from_python(pyo3::pybacked::PyBackedStr::new("0.0.0"), 0x123456).unwrap();
+    let mut buf = crate::buf::Buffer::default();
+    let r = s.push_pdu(pdu, &mut buf);
+    assert!(r.is_ok());
+    let d = buf.data();
+    assert!(d[0] == 0x30);
+    core::mem::forget(s);
+    core::mem::forget(buf);
+}
+#[kani::proof]
+#[kani::unwind(12)]
+#[kani::stub(alloc::fmt::format, stub_format)]
+fn s7_send_inner() {
+    let mut s = SnmpV2cClientSocket::new("127.0.0.1:161".to_string(), "pub".to_string(), 0, 0, 0, 1_000_000_000).unwrap();
+    let x: u8 = kani::any();
+    let c = [43u8, x & 0x7f, 0];
+    let pdu = SnmpPdu::GetRequest(crate::snmp::get::SnmpGet { request_id: 0x123456, vars: vec![oid(&c)] });
+    let r = s._send_inner(pdu);
+    assert!(r.is_ok());
+    assert!(s.get_io().tx_count == 1);
+    core::mem::forget(s);
+}
+#[kani::proof]
+#[kani::unwind(12)]
+#[kani::stub(alloc::fmt::format, stub_format)]
+#[kani::stub(<u32 as core::str::FromStr>::from_str, stub_u32_from_str_script)]
+fn s8_send_get_noread() {
+    unsafe { rand::QUEUE[0] = 0x123456; rand::DRAWN = 0; }
+    let mut s = SnmpV2cClientSocket::new("127.0.0.1:161".to_string(), "pub".to_string(), 0, 0, 0, 1_000_000_000).unwrap();
+    let x: u8 = kani::any();
+    script_oid_1_3_x(x);
+    let r = s.send_get(py(), pyo3::pybacked::PyBackedStr::new("0.0.0"));
+    assert!(r.is_ok());
+    assert!(s.get_io().tx_count == 1);
+    core::mem::forget(s);
+}
+#[kani::proof]
+#[kani::unwind(6)]
+fn p1_pool_drop_reacquire() {
+    {
+        let mut h = crate::buf::get_buffer_pool().acquire();
+        let b = h.as_mut();
+        let n: usize = kani::any();
+        b.skip(n);
+        b.set_bookmark(3);
+    }
+    let mut h2 = crate::buf::get_buffer_pool().acquire();
+    assert!(h2.as_mut().is_empty());
+    core::mem::forget(h2);
+}
+#[kani::proof]
+#[kani::unwind(6)]
+fn p2_pool_drop_only() {
+    let mut h = crate::buf::get_buffer_pool().acquire();
+    let b = h.as_mut();
+    let n: usize = kani::any();
+    b.skip(n);
+}
+use super::c03::*;
+#[kani::proof]
+#[kani::unwind(6)]
+#[kani::stub(alloc::fmt::format, stub_format)]
+#[kani::stub(<crate::ber::SnmpOid<'_> as core::convert::TryFrom<&str>>::try_from, stub_oid_from_str)]
+#[kani::stub(<crate::socket::v2c::SnmpV2cClientSocket as crate::socket::snmpsocket::SnmpSocket>::push_pdu, stub_push_pdu_v2c)]
+#[kani::stub(core::fmt::write, stub_fmt_write)]
+fn g1_send_get_stubpush() {
+    unsafe { rand::QUEUE[0] = 5; rand::DRAWN = 0; }
+    script_oids([[43, 6, 1, 0]; 3]);
+    let mut s = SnmpV2cClientSocket::new("127.0.0.1:161".to_string(), "pub".to_string(), 0, 0, 0, 1_000_000_000).expect("socket");
+    let r = s.send_get(py(), pyo3::pybacked::PyBackedStr::new("1.3.6"));
+    assert!(r.is_ok());
+    assert!(s.get_io().tx_count == 1);
+    core::mem::forget(s);
+    core::mem::forget(r);
+}
+#[kani::proof]
+#[kani::unwind(6)]
+#[kani::stub(alloc::fmt::format, stub_format)]
+#[kani::stub(<crate::socket::v2c::SnmpV2cClientSocket as crate::socket::snmpsocket::SnmpSocket>::push_pdu, stub_push_pdu_v2c)]
+#[kani::stub(core::fmt::write, stub_fmt_write)]
+#[kani::stub(<std::io::Error as std::fmt::Display>::fmt, stub_ioerr_fmt)]
+fn g3_send_inner_stubpush() {
+    let mut s = SnmpV2cClientSocket::new("127.0.0.1:161".to_string(), "pub".to_string(), 0, 0, 0, 1_000_000_000).expect("socket");
+    let c = [43u8, 6, 0];
+    let pdu = SnmpPdu::GetRequest(crate::snmp::get::SnmpGet { request_id: 0x123456, vars: vec![oid(&c)] });
+    let r = s._send_inner(pdu);
+    assert!(r.is_ok());
+    assert!(s.get_io().tx_count == 1);
+    core::mem::forget(s);
+    core::mem::forget(r);
+}
